@@ -286,7 +286,7 @@ impl Scenario for C13 {
     fn runs(&self, tier: Tier) -> u64 {
         match tier {
             Tier::Quick => 40_000,
-            Tier::Thorough => 2_000_000,
+            Tier::Thorough => 4_000_000,
         }
     }
     fn generate(&self, rng: &mut Prng, _tier: Tier) -> Spec {
